@@ -256,3 +256,67 @@ def ftree(fcp):
         ds.append("{| dname := %s; dservices := %s |}" % (cstr(d.name), t))
     return "{| t_structs := %s; t_enums := %s; t_impls := %s; t_services := %s; t_devices := %s |}" % (
         clist(ss), clist(es), clist(ims), clist(svs), clist(ds))
+
+
+def rtype(t):
+    T = _types()
+    if type(t) in (T.UnsignedType, T.SignedType, T.FloatType, T.DoubleType):
+        return f"(TLeaf {cstr(t.name)} {cstr(t.type)})"
+    if type(t) is T.StringType:
+        return '(TLeaf "str" "str")'
+    if type(t) is T.EnumType:
+        return f'(TLeaf {cstr(t.name)} "Enum")'
+    if type(t) is T.StructType:
+        return f'(TLeaf {cstr(t.name)} "Struct")'
+    if type(t) is T.ArrayType:
+        return f"(TArr {rtype(t.underlying_type)} {cz(t.size)})"
+    if type(t) is T.DynamicArrayType:
+        return f"(TDyn {rtype(t.underlying_type)})"
+    if type(t) is T.OptionalType:
+        return f"(TOpt {rtype(t.underlying_type)})"
+    raise TypeError(f"rtype: {t!r}")
+
+
+def rmeta(m):
+    if m is None:
+        return "None"
+    return "(Some {| m_line := %s; m_end_line := %s; m_col := %s; m_end_col := %s; m_start := %s; m_end := %s; m_file := %s |})" % (
+        cz(m.line), cz(m.end_line), cz(m.column), cz(m.end_column), cz(m.start_pos), cz(m.end_pos), cstr(m.filename))
+
+
+def _ostr(x):
+    return "None" if x is None else f"(Some {cstr(x)})"
+
+
+def _obits(x):
+    if x is None:
+        return "None"
+    if not isinstance(x, float):
+        raise TypeError(f"rtree: min/max must be float, got {x!r}")
+    return f"(Some {cz(f64_bits(x))})"
+
+
+def rtree(fcp):
+    from fcp.specs.v2 import encode_version
+    ss = []
+    for s in fcp.structs:
+        fs = clist("{| rf_name := %s; rf_id := %s; rf_type := %s; rf_unit := %s; rf_min := %s; rf_max := %s; rf_meta := %s |}" % (
+            cstr(f.name), cz(f.field_id), rtype(f.type), _ostr(f.unit), _obits(f.min_value), _obits(f.max_value), rmeta(f.meta)) for f in s.fields)
+        ss.append("{| rs_name := %s; rs_fields := %s; rs_meta := %s |}" % (cstr(s.name), fs, rmeta(s.meta)))
+    es = []
+    for e in fcp.enums:
+        vs = clist("{| re_name := %s; re_value := %s; re_meta := %s |}" % (cstr(x.name), cz(x.value), rmeta(x.meta)) for x in e.enumeration)
+        es.append("{| rn_name := %s; rn_vals := %s; rn_meta := %s |}" % (cstr(e.name), vs, rmeta(e.meta)))
+    ims = []
+    for i in fcp.impls:
+        sg = clist("{| rg_name := %s; rg_fields := %s; rg_meta := %s |}" % (
+            cstr(g.name), clist(cpair(cstr(k), cstr(str(v))) for k, v in g.fields.items()), rmeta(g.meta)) for g in i.signals)
+        ims.append("{| ri_name := %s; ri_protocol := %s; ri_type := %s; ri_fields := %s; ri_signals := %s; ri_meta := %s |}" % (
+            cstr(i.name), cstr(i.protocol), cstr(i.type), clist(cpair(cstr(k), cstr(str(v))) for k, v in i.fields.items()), sg, rmeta(i.meta)))
+    svs = []
+    for sv in fcp.services:
+        ms = clist("{| rm_name := %s; rm_id := %s; rm_input := %s; rm_output := %s; rm_meta := %s |}" % (
+            cstr(m.name), cz(m.id), cstr(m.input), cstr(m.output), rmeta(m.meta)) for m in sv.methods)
+        svs.append("{| rv_name := %s; rv_id := %s; rv_methods := %s; rv_meta := %s |}" % (cstr(sv.name), cz(sv.id), ms, rmeta(sv.meta)))
+    return "{| r_version := %s; r_structs := %s; r_enums := %s; r_impls := %s; r_services := %s |}" % (
+        cz(encode_version(fcp.version)), clist(ss), clist(es), clist(ims), clist(svs))
